@@ -331,3 +331,22 @@ def pattern_f(ctx, flavour, prog, shard_argv, module, cfg, rowvar="ROWS", tlc_ti
             bad.append({"clause": r.violated[0], "what": r.out[-800:], "sites": []})
     ctx.log("TLC judged %d rows (%d distinct) in %.1fs, %d bad" % (total, distinct, time.time() - t, len(bad)))
     return total, distinct, bad, [x[0] for x in recs]
+
+
+# ----------------------------------------------------------------------------- known findings as a TLA+ module
+def known_module_text():
+    ent = sorted({(f.f["clause"], f.f["site"]) for f in load_findings() if f.status == "open" and "clause" in f.f and "site" in f.f})
+    body = ",\n   ".join('<<"%s", "%s">>' % e for e in ent)
+    return ("------------------------------ MODULE HtpKnown ------------------------------\n"
+            "(* GENERATED from known_findings.txt by tools/vlib.py (open entries that name a clause and a site). *)\n"
+            "KnownSet ==\n  {%s}\n"
+            "=============================================================================\n") % body
+
+
+def spec_workdir(ctx):
+    """A private copy of spec/ with a freshly generated HtpKnown.tla, so that a TLC run always sees the current findings file."""
+    d = ctx.path("spec")
+    if not os.path.isdir(d):
+        shutil.copytree(SPEC, d)
+        open(os.path.join(d, "HtpKnown.tla"), "w").write(known_module_text())
+    return d
